@@ -348,6 +348,40 @@ func runRaceFleet(p c17Params, env *runner.Env, res *runner.Result) {
 	}
 	wwg.Wait()
 	time.Sleep(60 * time.Millisecond)
+	// liveness probe before the shutdown: a valid snapshot of a new instance must still get through to every sync
+	// loop - downloaders wedged on a leaked token or lock would show here (bounded in loop iterations)
+	{
+		lts := time.Now()
+		ls := &wire.Snap{FormatVersion: 3, CompatVersion: 1, Meta: wire.Meta{DatabaseName: "db", InstanceID: "zlate", GenerationID: "GX", TimestampNano: uint64(lts.UnixNano())},
+			DBIs: []wire.DBI{{Name: "d", Entries: []wire.KV{{Key: []byte("zlate"), Val: []byte("v"), TS: uint64(lts.UnixNano())}}}}}
+		lname := snapshot.Name("db", "zlate", "GX", lts)
+		b.Put(lname, wire.Gzip(wire.EncodeSnapshot(ls)))
+		from := s.Len()
+		wdog := time.Now().Add(60 * time.Second)
+		for {
+			all, over := true, true
+			for _, x := range insts {
+				if !s.Loaded(x.Name, lname, from) {
+					all = false
+				}
+				if s.Count(x.Name, "loop.end", from) < 1500 {
+					over = false
+				}
+			}
+			if all {
+				res.Count("liveness_probes_delivered", 1)
+				break
+			}
+			if over {
+				res.Violate("downloaders-wedged", fmt.Sprintf("a valid snapshot of a new instance (%s) was not merged by every sync loop within 1500 loop iterations after undecodable blobs had been arriving: downloaders no longer make progress", lname), map[string]any{"goroutines": goroutineDump(12000)})
+				break
+			}
+			if time.Now().After(wdog) {
+				break // starved machine: no verdict from the probe
+			}
+			time.Sleep(2 * time.Millisecond)
+		}
+	}
 	evAtCancel := s.Len()
 	cancel()
 	for _, l := range loops {
